@@ -440,6 +440,14 @@ def targeted(rng) -> List[tuple]:
     out.append(("udp-max", response(udn, typ, loc, None, extra=[[f"H{i}", "w" * 100] for i in range(600)]), None))
     out.append(("udp-max", msearch("ssdp:all", "1", extra=[["USER-AGENT", "a" * 8000], ["X", "b" * 8190]]), None))
     out.append(("udp-max", b"NOTIFY * HTTP/1.1\r\n" + bytes((i * 37 + 11) % 256 for i in range(65400)), None))
+    # the responder answers M-SEARCH only: other start lines with MAN "ssdp:discover" and a matching ST must send nothing
+    for sl in ("NOTIFY * HTTP/1.1", "HTTP/1.1 200 OK", "M-SEARCH * HTTP/1.1 x", "M-SEARCH * HTTP/1.10", "M-SEARCH * HTTP/1.1\t"):
+        for st in ("ssdp:all", "upnp:rootdevice", ROOT_UDN, ROOT_TYPE):
+            for mx in ("0", "2", None):
+                hs = [["HOST", "239.255.255.250:1900"], ["MAN", DISCOVER], ["ST", st]] + ([["MX", mx]] if mx is not None else [])
+                out.append(("resp-startline", pkt(sl, hs), None))
+    for man in ("ssdp:discover", '"ssdp:discover" ', '"SSDP:DISCOVER"', "", '"ssdp:discover"x'):
+        out.append(("resp-man", msearch("ssdp:all", "0", man=man), None))
     # metadata spoofing: `_udn` without a USN reaches `_see_device`
     for kind in ("alive", "search", "byebye"):
         hs = [["_udn", "uuid:spoof"], ["LOCATION", loc], ["NT", typ], ["ST", typ], ["NTS", "ssdp:" + ("byebye" if kind == "byebye" else "alive")]]
@@ -541,6 +549,37 @@ def gen_part(ctx: Ctx, kind: str, n: int, prefix: str) -> List[Case]:
                 d = valid_datagram(rng)
                 ops.append([rng.choice(EPS), d.hex(), list(rng.choice(SRCS)), list(rng.choice(LOCALS) or []) or None, rng.choice(GAPS), "valid"])
             add(ops, target=rng.choice(["", "", "192.168.1.7", "fe80::1%3"]))
+    elif kind == "sandwich":
+        # a dropped datagram between valid ones: tracker non-empty (same and other UDNs), responder timers pending
+        pool = [(t, d) for t, d, _s in targeted(rng) if in_model(d)]
+        for _ in range(n):
+            udn_a, udn_b = rng.sample(UDNS, 2)
+            typ, loc = rng.choice(TYPES), rng.choice(LOCS[:4])
+            src = list(rng.choice(SRCS))
+            mk = lambda ep, d, gap, tag: [ep, d.hex(), src if rng.random() < 0.7 else list(rng.choice(SRCS)), None, gap, tag]
+            ops = [mk("ladv", notify("ssdp:alive", udn_a, typ, loc, rng.choice(["max-age=1800", "max-age=2", None])), 1000, "valid"),
+                   mk("resp", msearch("ssdp:all", "3"), 1000, "valid"),
+                   mk("lsearch", response(udn_b, typ, loc, "max-age=1800"), 1000, "valid")]
+            for _ in range(rng.randrange(1, 4)):
+                c = rng.randrange(4)
+                if c == 0:
+                    tag, d = rng.choice(pool)
+                elif c == 1:   # claims the known UDN but is not a well-formed message
+                    tag, d = "bad-same-udn", notify(rng.choice(["ssdp:alive", "ssdp:byebye", "ssdp:update"]), udn_a, typ,
+                                                    rng.choice(INVALID_LOCS), None, extra=[["NT", ""]] if rng.random() < 0.3 else ())
+                    if rng.random() < 0.5:
+                        d = d.replace(b"USN:uuid:", b"USN:uid:").replace(b"USN:UUID:", b"USN:UID:")
+                elif c == 2:   # another UDN, malformed
+                    tag, d = "bad-other-udn", mutate(rng, response("uuid:dev-9", typ, rng.choice(INVALID_LOCS), None))
+                else:
+                    tag, d = "hostile", hostile(rng)
+                if not in_model(d):
+                    continue
+                ops.append(mk(rng.choice(EPS), d, rng.choice(GAPS[:8]), tag))
+                if rng.random() < 0.5:
+                    ops.append(mk("ladv", notify("ssdp:alive", rng.choice([udn_a, udn_b]), typ, loc, None), rng.choice(GAPS[:6]), "valid"))
+            ops.append(mk("ladv", notify("ssdp:byebye", udn_a, typ, None, None), 1000, "valid"))
+            add(ops, target="")
     elif kind == "hostile":
         for _ in range(n):
             ops = seq_prefix(rng, rng.choice([0, 1, 3]))
@@ -584,13 +623,13 @@ def generate(ctx: Ctx) -> List[Case]:
     for i, rec in enumerate(CORPUS):
         cases.append(run_recipe(ctx, rec, f"corpus{i}"))
     if not ctx.thorough:
-        for kind, n in (("targeted", 1), ("hostile", 700), ("valid", 1000), ("mutated", 1500)):
+        for kind, n in (("targeted", 1), ("sandwich", 400), ("hostile", 600), ("valid", 900), ("mutated", 1300)):
             cases += gen_part(ctx, kind, n, kind[0])
         return cases
     import multiprocessing as mp
 
     jobs = []
-    for kind, n, chunks in (("targeted", 1, 8), ("hostile", 1500, 8), ("valid", 2000, 16), ("mutated", 1800, 24)):
+    for kind, n, chunks in (("targeted", 1, 8), ("sandwich", 1200, 8), ("hostile", 1500, 8), ("valid", 1800, 16), ("mutated", 1600, 24)):
         for c in range(chunks):
             jobs.append(("thorough", ctx.rng.randrange(1 << 30), kind, n, f"{kind[0]}{c}-"))
     with mp.Pool(min(16, mp.cpu_count())) as pool:
